@@ -494,3 +494,26 @@ Proof.
     apply Hanch. apply in_rev in HqR. replace (r0 + (r1 - r0 + 1) - 1) with r1 by lia.
     replace (c0 + (c1 - c0 + 1) - 1) with c1 by lia. exact HqR.
 Qed.
+
+(* ---- a table that has just been created has no merged cell at all (add_table / add_sheet give such a table,
+   whatever merges the document's other tables carry) ---- *)
+Lemma flat_map_all_nil {A B} (f : A -> list B) (l : list A) : (forall x, In x l -> f x = []) -> flat_map f l = [].
+Proof. induction l as [|a l IH]; cbn; intros H; [reflexivity|]. rewrite (H a) by now left. apply IH. intros; apply H; now right. Qed.
+
+Lemma new_table_cells_plain nr nc row x : In row (data (new_table nr nc)) -> In x row ->
+  cmerge x = MPlain /\ cplace x = false /\ cval x = None.
+Proof.
+  unfold new_table; cbn [data]. intros Hr Hx.
+  apply in_map_iff in Hr. destruct Hr as [r [<- _]].
+  apply in_map_iff in Hx. destruct Hx as [c [<- _]]. cbn. auto.
+Qed.
+
+Lemma new_table_no_merges_lemma nr nc : merge_ranges (new_table nr nc) = [] /\ merges (new_table nr nc) = [].
+Proof.
+  split; [|reflexivity]. unfold merge_ranges.
+  apply flat_map_all_nil. intros p Hp.
+  apply flat_map_all_nil. intros q Hq.
+  destruct p as [r row]. destruct q as [c x]. cbn [fst snd] in *.
+  apply in_combine_r in Hp. apply in_combine_r in Hq.
+  destruct (new_table_cells_plain nr nc row x Hp Hq) as [E _]. now rewrite E.
+Qed.
